@@ -59,6 +59,12 @@ func handleSADD(params internal.HandlerFuncParams) ([]byte, error) {
 
 	count := set.Add(params.Command[2:])
 
+	// Write the updated set back so that the memory usage, the modification count and the
+	// eviction caches see the change.
+	if err = params.SetValues(params.Context, map[string]interface{}{key: set}); err != nil {
+		return nil, err
+	}
+
 	return []byte(fmt.Sprintf(":%d\r\n", count)), nil
 }
 
@@ -410,6 +416,17 @@ func handleSMOVE(params internal.HandlerFuncParams) ([]byte, error) {
 
 	res := sourceSet.Move(destinationSet, member)
 
+	// Write the updated sets back so that the memory usage, the modification count and the
+	// eviction caches see the change.
+	if res == 1 {
+		if err = params.SetValues(params.Context, map[string]interface{}{
+			source:      sourceSet,
+			destination: destinationSet,
+		}); err != nil {
+			return nil, err
+		}
+	}
+
 	return []byte(fmt.Sprintf(":%d\r\n", res)), nil
 }
 
@@ -441,6 +458,14 @@ func handleSPOP(params internal.HandlerFuncParams) ([]byte, error) {
 	}
 
 	members := set.Pop(count)
+
+	// Write the updated set back so that the memory usage, the modification count and the
+	// eviction caches see the change.
+	if len(members) > 0 {
+		if err = params.SetValues(params.Context, map[string]interface{}{key: set}); err != nil {
+			return nil, err
+		}
+	}
 
 	return encodeMembers(members), nil
 }
@@ -497,6 +522,14 @@ func handleSREM(params internal.HandlerFuncParams) ([]byte, error) {
 	}
 
 	count := set.Remove(members)
+
+	// Write the updated set back so that the memory usage, the modification count and the
+	// eviction caches see the change.
+	if count > 0 {
+		if err = params.SetValues(params.Context, map[string]interface{}{key: set}); err != nil {
+			return nil, err
+		}
+	}
 
 	return []byte(fmt.Sprintf(":%d\r\n", count)), nil
 }
